@@ -1,6 +1,6 @@
 (* C11 — at most one block per type; presence, count and lookup agree with content. *)
-From Model Require Import Base Str Fmt Container AFile.
-From Proofs Require Import BaseFacts ContainerFacts ContainerProps.
+From Model Require Import Base Str Fmt Container AFile GFile.
+From Proofs Require Import BaseFacts ContainerFacts ContainerProps GapFacts.
 Open Scope Z_scope.
 
 (* the live types of the table on disk never contain a duplicate, after any history *)
@@ -10,6 +10,16 @@ Proof.
   destruct (run_refines ops a Hi Ho) as [-> [[Ht _] Hnd]]. now rewrite live_types_conc.
 Qed.
 Print Assumptions C11_nodup.
+
+(* the same from any ordered file (GFile.v) *)
+Theorem C11_nodup_ordered : forall s ops, ordered s -> Forall op_ok ops -> NoDup (live_types (run_ops s ops)).
+Proof.
+  intros s ops Hc Ho. destruct Hc as [a [Hi ->]].
+  destruct (grun_refines ops a Hi Ho) as [-> [[Ht _] Hnd]].
+  unfold live_types. change (tab (gconc (g_run a ops))) with (gtable (g_run a ops)).
+  rewrite gfilter_live_table by exact Ht. rewrite glay_types. exact Hnd.
+Qed.
+Print Assumptions C11_nodup_ordered.
 
 (* adding a type that is present is refused with ValueError and changes nothing *)
 Theorem C11_add_duplicate : forall a b c now, a_inv a -> blk_ok b ->
